@@ -237,8 +237,12 @@ func (e *Engine) checkProperty(prop string, o runOpts) int {
 					rn++
 					go func(c *Ctx, g *Goal) {
 						rsem <- struct{}{}
+						t0 := time.Now()
 						discharge(c, []*Goal{g}, dischargeOpts{Timeout: 3 * o.Timeout, All: o.All, Workdir: o.Workdir, Par: 1, Split: true, SplitTimeout: o.Timeout})
 						g.Retried = true
+						if os.Getenv("GVC_SLOW") != "" {
+							fmt.Printf("retried: %-70s %s %.1fs\n", g.Name, g.Status, time.Since(t0).Seconds())
+						}
 						<-rsem
 						rdone <- struct{}{}
 					}(c, g)
